@@ -34,9 +34,12 @@ Struct(s, mode, dir) ==
     [] s = "OrderedForbid" -> St("order", FALSE, mode = "udt", Std)
     [] s = "AllowMissing" -> St("name", FALSE, FALSE, [Std EXCEPT ![4].am = (mode = "udt" /\ dir = "de")])
     [] s = "DefaultNull" -> St("name", FALSE, FALSE, [Std EXCEPT ![2].dn = (dir = "de")])
-    [] s = "Flat" -> St("name", FALSE, FALSE, Std)         \* flatten = the inner struct's fields inline
+    [] s \in {"Flat", "Flat2"} -> St("name", FALSE, FALSE, Std)   \* flatten (one / two levels) = the inner structs' fields inline
+    [] s = "OrderedAM" -> St("order", FALSE, FALSE, [Std EXCEPT ![1].am = TRUE, ![2].am = TRUE, ![4].am = TRUE])
+    [] s = "NameAM" -> St("name", FALSE, FALSE, [Std EXCEPT ![2].am = TRUE, ![4].am = TRUE])
+    [] s = "OrderedRenamedSkip" -> St("order", FALSE, FALSE, [Std EXCEPT ![2].n = "bb", ![3].skip = TRUE])
 Structs == {"Plain", "Same", "Opt", "Renamed", "Skip", "Ordered", "OrderedSame", "OrderedNoNames", "Forbid",
-            "OrderedForbid", "AllowMissing", "DefaultNull", "Flat"}
+            "OrderedForbid", "AllowMissing", "DefaultNull", "Flat", "Flat2", "OrderedAM", "NameAM", "OrderedRenamedSkip"}
 
 \* a Rust field type fits a database type (C17's relation restricted to the four field types)
 FitsT(t, T) == T.k = "native" /\ (IF t = "text" THEN T.n \in {"text", "ascii"} ELSE T.n = t)
@@ -56,19 +59,31 @@ Default(f) == IF f.opt THEN [k |-> "null"]
 \* struct are sent as null (in the middle) or not at all (at the end) — unless forbidden.
 SerUdtName(S, db, vals) ==
   LET fs == Active(S)
-      ok == /\ \A j \in 1..Len(fs) : \E i \in Pos(db, fs[j].n) : FitsT(fs[j].t, db[i].t)
+      ok == /\ \A j \in 1..Len(fs) : IF Pos(db, fs[j].n) = {} THEN fs[j].am       \* allow_missing: no such UDT field -> not sent
+                                     ELSE \E i \in Pos(db, fs[j].n) : FitsT(fs[j].t, db[i].t)
             /\ (S.forbid => \A i \in 1..Len(db) : FieldOf(fs, db[i].n) # {})
       last == Max({i \in 1..Len(db) : FieldOf(fs, db[i].n) # {}})
       cell(i) == IF FieldOf(fs, db[i].n) = {} THEN NullLen ELSE Cell(db[i].t, vals[fs[One(FieldOf(fs, db[i].n))].r])
   IN IF ok THEN [ok |-> 1, cells |-> [i \in 1..last |-> cell(i)], tail |-> Len(db) - last] ELSE [ok |-> 0]
 
-\* enforce_order, UDT: the Rust fields are a prefix of the UDT's fields, same names (unless skip_name_checks)
+\* enforce_order, UDT: walking both sequences, each Rust field must be the next UDT field (same name unless
+\* skip_name_checks, fitting type); an allow_missing field that is not the next UDT field is left out and the UDT field
+\* stays for the next Rust field.  Result: <<-1>> = refused, else for every Rust field the UDT position it took (0 = left out).
+RECURSIVE Align(_, _, _, _, _)
+Align(S, fs, j, db, i) ==
+  IF j > Len(fs) THEN << >>
+  ELSE IF i > Len(db) THEN (IF fs[j].am THEN S1(Align(S, fs, j + 1, db, i), LAMBDA r : IF r = <<-1>> THEN r ELSE <<0>> \o r) ELSE <<-1>>)
+  ELSE IF S.snc \/ db[i].n = fs[j].n
+       THEN (IF FitsT(fs[j].t, db[i].t) THEN S1(Align(S, fs, j + 1, db, i + 1), LAMBDA r : IF r = <<-1>> THEN r ELSE <<i>> \o r) ELSE <<-1>>)
+  ELSE IF fs[j].am THEN S1(Align(S, fs, j + 1, db, i), LAMBDA r : IF r = <<-1>> THEN r ELSE <<0>> \o r)
+  ELSE <<-1>>
+Taken(al) == Max({al[j] : j \in 1..Len(al)})
 SerUdtOrder(S, db, vals) ==
   LET fs == Active(S)
-      ok == /\ Len(db) >= Len(fs)
-            /\ \A j \in 1..Len(fs) : (S.snc \/ db[j].n = fs[j].n) /\ FitsT(fs[j].t, db[j].t)
-            /\ (S.forbid => Len(db) = Len(fs))
-  IN IF ok THEN [ok |-> 1, cells |-> [j \in 1..Len(fs) |-> Cell(db[j].t, vals[fs[j].r])], tail |-> Len(db) - Len(fs)] ELSE [ok |-> 0]
+      al == Align(S, fs, 1, db, 1)
+      ok == al # <<-1>> /\ (S.forbid => Taken(al) = Len(db))
+      fld(i) == One({j \in 1..Len(fs) : al[j] = i})
+  IN IF ok THEN [ok |-> 1, cells |-> [i \in 1..Taken(al) |-> Cell(db[i].t, vals[fs[fld(i)].r])], tail |-> Len(db) - Taken(al)] ELSE [ok |-> 0]
 
 \* rows: the columns / bind markers and the Rust fields must be the same set (by name) resp. the same sequence
 SerRowName(S, db, vals) ==
@@ -111,10 +126,9 @@ DeUdtName(S, db, wvals) ==
 IndexIn(fs, f) == One({j \in 1..Len(fs) : fs[j].r = f.r})
 DeUdtOrder(S, db, wvals) ==
   LET fs == Active(S)
-      tc == /\ Len(db) >= Len(fs)
-            /\ \A j \in 1..Len(fs) : (S.snc \/ db[j].n = fs[j].n) /\ FitsT(fs[j].t, db[j].t)
-            /\ (S.forbid => Len(db) = Len(fs))
-  IN Finish(S, tc, LAMBDA f : At(wvals, IndexIn(fs, f)))
+      al == Align(S, fs, 1, db, 1)
+      tc == al # <<-1>> /\ (S.forbid => Taken(al) = Len(db))
+  IN Finish(S, tc, LAMBDA f : IF al[IndexIn(fs, f)] = 0 THEN Default(f) ELSE At(wvals, al[IndexIn(fs, f)]))
 
 DeRowName(S, db, wvals) ==
   LET fs == Active(S)
